@@ -106,6 +106,55 @@ theorem rotate_trace_invariant (m : ℕ) (U X : ℕ → ℕ → K)
   rw [this]
   exact trace_cj _ _ hU
 
+
+/-! ## T2c: products of any number of factors (`FormulaProduct`) -/
+
+/-- **T2c.**  `FormulaProduct.nn` — the chain `M₀·M₁·…·M_r` of covariant inner blocks — is covariant for ANY number
+    of factors, … -/
+theorem product_chain_covariant (U : Matrix (Fin n) (Fin n) K) (hU : U * Uᴴ = 1)
+    (M0 : Matrix (Fin n) (Fin n) K) (rest : List (Matrix (Fin n) (Fin n) K)) :
+    productChain (Uᴴ * M0 * U) (rest.map fun X => Uᴴ * X * U) = Uᴴ * productChain M0 rest * U :=
+  productChain_cj U hU M0 rest
+
+/-- … hence its trace (what every calculator built on a product formula integrates or tabulates:
+    `v·v·v`, `v·∂v·v`, `∂v·Ω·v`, …) does not depend on the gauge inside the band group. -/
+theorem product_trace_gauge_invariant (U : Matrix (Fin n) (Fin n) K) (hU : U * Uᴴ = 1)
+    (M0 : Matrix (Fin n) (Fin n) K) (rest : List (Matrix (Fin n) (Fin n) K)) :
+    (productChain (Uᴴ * M0 * U) (rest.map fun X => Uᴴ * X * U)).trace = (productChain M0 rest).trace := by
+  rw [product_chain_covariant U hU]; exact trace_cj U _ hU
+
+/-- the same for `List.prod` (empty product included): `tr(Π U†XᵢU) = tr(Π Xᵢ)` -/
+theorem list_prod_trace_gauge_invariant (U : Matrix (Fin n) (Fin n) K) (hU : U * Uᴴ = 1)
+    (Xs : List (Matrix (Fin n) (Fin n) K)) :
+    ((Xs.map fun X => Uᴴ * X * U).prod).trace = Xs.prod.trace := by
+  cases Xs with
+  | nil => simp
+  | cons X Xs =>
+    have h : ∀ (Y : Matrix (Fin n) (Fin n) K) (Ys : List (Matrix (Fin n) (Fin n) K)),
+        (Y :: Ys).prod = productChain Y Ys := by
+      intro Y Ys
+      unfold productChain
+      rw [List.prod_eq_foldl, List.foldl_cons, one_mul]
+    rw [List.map_cons, h, h]
+    exact product_trace_gauge_invariant U hU X Xs
+
+/-- the optional Hermitian completion of `FormulaProduct.nn` (`0.5 (res + res†)`) keeps covariance -/
+theorem hermitize_covariant (half : K) (U : Matrix (Fin n) (Fin n) K) (X : Matrix (Fin n) (Fin n) K) :
+    half • (cj U U X + (cj U U X)ᴴ) = cj U U (half • (X + Xᴴ)) := by
+  rw [cj_conjTranspose, ← cj_add, ← cj_smul]
+
+/-- T2c on the executable model: the trace of the model's chain (`chainM`, as run by the driver against the real
+    `FormulaProduct.trace`) is unchanged when every factor is rotated by the model of `Data_K._rotate` -/
+theorem chainM_trace_gauge_invariant (m : ℕ) (U : ℕ → ℕ → K) (hU : toM m U * (toM m U)ᴴ = 1)
+    (M0 : ℕ → ℕ → K) (rest : List (ℕ → ℕ → K)) :
+    traceM m (chainM m (rotate star m U M0) (rest.map (rotate star m U))) = traceM m (chainM m M0 rest) := by
+  have e1 : ∀ X : ℕ → ℕ → K, traceM m X = (toM m X).trace := fun X => traceM_eq m X
+  rw [e1, e1, toM_chainM, toM_chainM, toM_rotate, List.map_map]
+  have : (rest.map (toM m ∘ rotate star m U)) = (rest.map (toM m)).map (cj (toM m U) (toM m U)) := by
+    rw [List.map_map]; apply List.map_congr_left; intro X _; exact toM_rotate m U X
+  rw [this, productChain_cj _ hU]
+  exact trace_cj _ _ hU
+
 /-! ## T3: generalised derivative, D_H, Omega -/
 
 /-- `Matrix_GenDer_ln.nn = dA.nn - D.nl·A.ln + A.nl·D.ln` -/
@@ -226,6 +275,18 @@ example : ∃ (G V : Matrix (Fin 2) (Fin 2) ℚ) (E : Fin 2 → ℚ),
   intro h
   have := congrFun (congrFun h 0) 1
   simp [DHmat, Matrix.mul_apply, Fin.sum_univ_two] at this
+
+/-- closing the chain with the last factor TRANSPOSED (`Tr(A·B·Cᵀ)`) is not gauge invariant: a 2-fold group,
+    the unitary `diag(1, i)`, three Hermitian factors — the correct trace is unchanged, the transposed one is not -/
+theorem transposed_last_factor_not_invariant :
+    let U : ℕ → ℕ → WB.C27.GRat := fun i j => if i = j then (if i = 0 then ⟨1, 0⟩ else ⟨0, 1⟩) else ⟨0, 0⟩
+    let A : ℕ → ℕ → WB.C27.GRat := mkM [[1, 2], [2, 0]] [[0, 1], [-1, 0]]
+    let B : ℕ → ℕ → WB.C27.GRat := mkM [[0, 1], [1, 3]] [[0, -2], [2, 0]]
+    let C : ℕ → ℕ → WB.C27.GRat := mkM [[2, 1], [1, 1]] [[0, 3], [-3, 0]]
+    let r := rotate WB.C27.GRat.conj 2 U
+    productTrace [0, 1] [r A, r B, r C] = productTrace [0, 1] [A, B, C] ∧
+    productTraceLastT [0, 1] [r A, r B, r C] ≠ productTraceLastT [0, 1] [A, B, C] := by
+  decide +kernel
 
 /-- the driver's degenerate-group finder on a concrete spectrum: a doublet and a triplet are found, singles are not -/
 example : degenGroups (WB.C15.ofList [0, 1, 1, 2, 3, 3, 3]) (1/10000) 7 = [(1, 3), (4, 7)] := by decide +kernel
